@@ -47,6 +47,7 @@ package base
 //@   ensures[copy-of-input] len(result.1) == len(input) && writable(result.1) && forall i int :: 0 <= i && i < len(input) ==> result.1[i] == old(input[i])
 
 //@ func (alloc *LogAllocator) Release(record *LogRecord)
+//@   flag counted
 //@   requires allocok(alloc) && record != nil && record._refCount >= 1 && len(record.Fields) == alloc.nfields
 //@   requires record._backbuf != nil ==> exists k int :: 0 <= k && k < 32 && len(*record._backbuf) == util.pow2(k)
 //@   modifies record._refCount, record.RawLength, record.Timestamp, record._backbuf, record.Fields[:]
@@ -137,6 +138,7 @@ package base
 //@ ghost var lastmkeys []string
 //@ func (pcounter *LogProcessCounterSet) SelectMetricKeySet(record *LogRecord) *LogInputCounterSet
 //@   property C19 C06 C07
+//@   flag counted
 //@   requires pcounter != nil && record != nil && pcounter.keySetPairs != nil && pcounter.customCounterVecMap != nil && pcounter.factory != nil && len(pcounter.mergeKeyBuffer) == 0
 //@   requires len(pcounter.metricKeyExtractor.fieldSetBuffer) == len(pcounter.metricKeyExtractor.locators) && ref(pcounter.metricKeyExtractor.fieldSetBuffer) != ref(record.Fields) && ref(pcounter.metricKeyExtractor.fieldSetBuffer) != 0
 //@   requires forall i int :: 0 <= i && i < len(pcounter.metricKeyExtractor.locators) ==> 0 <= pcounter.metricKeyExtractor.locators[i] && pcounter.metricKeyExtractor.locators[i] < len(record.Fields)
@@ -193,12 +195,14 @@ package base
 // per-output stream / chunk counters (C19): one stream adds its length, one chunk adds one and its length
 //@ func (pcounter *LogProcessCounterSet) CountStream(outputIndex int, stream LogStream)
 //@   property C19
+//@   flag counted
 //@   requires pcounter != nil && 0 <= outputIndex && outputIndex < len(pcounter.serializedLengthTotal) && pcounter.serializedLengthTotal[outputIndex].unwrittenValue < 4611686018427387904
 //@   modifies pcounter.serializedLengthTotal[outputIndex]
 //@   ensures[stream-length-added] pcounter.serializedLengthTotal[outputIndex].unwrittenValue == old(pcounter.serializedLengthTotal[outputIndex].unwrittenValue) + len(stream)
 //@        && pcounter.serializedLengthTotal[outputIndex].metric == old(pcounter.serializedLengthTotal[outputIndex].metric)
 //@ func (pcounter *LogProcessCounterSet) CountChunk(outputIndex int, chunk *LogChunk)
 //@   property C19
+//@   flag counted
 //@   requires pcounter != nil && chunk != nil && 0 <= outputIndex && outputIndex < len(pcounter.chunksCountTotal) && outputIndex < len(pcounter.chunksLengthTotal)
 //@   requires pcounter.chunksCountTotal[outputIndex].unwrittenValue < 4611686018427387904 && pcounter.chunksLengthTotal[outputIndex].unwrittenValue < 4611686018427387904 && ref(pcounter.chunksCountTotal) != ref(pcounter.chunksLengthTotal)
 //@   modifies pcounter.chunksCountTotal[outputIndex], pcounter.chunksLengthTotal[outputIndex]
